@@ -11,6 +11,19 @@ type Spec struct {
 	Run         func(r *fw.Run)
 	Thorough    func(r *fw.Run)
 	Explanation string
+	// Mutants are the positive controls of the thorough tier: one-construct edits applied in
+	// memory (packages overlay) that must type-check and make the named rule fire.
+	Mutants []Mutant
+}
+
+// Mutant is a seeded one-construct change used to test that a rule fires (never written to disk).
+type Mutant struct {
+	Name string
+	File string // path relative to the repo root
+	Old  string // text that must occur exactly once in File
+	New  string
+	Rule string // rule expected to report a violation
+	Key  string // substring expected in the key of a failing obligation ("" = any)
 }
 
 var modPrefix = map[string]string{"v2": fw.V2Prefix, "execution": fw.ExecPrefix}
